@@ -127,6 +127,22 @@ Theorem C07_uniform_ra_in_range : forall k lo hi g draws t s,
 Proof. exact uniform_ra_in_range. Qed.
 Print Assumptions C07_uniform_ra_in_range.
 
+(* Time based scrambling (I3TimeScramblingMethod, I3SeasonalVariationTimeScramblingMethod, TimeScramblingMethod):
+   the column stored in `ra` is the result of the coordinate transform itself - no narrowing to the dtype of the
+   old field after the wrap - so with the transform's range as premise (azi_to_ra_transform in [0, 2 pi): C19) every
+   stored right ascension is inside the range, one per event. *)
+Theorem C07_time_ra_in_range : forall m t s lo hi,
+  snd (scramble m t s) = Ok tt ->
+  match m with
+  | ScrI3Time _ ras | ScrSeasonal _ ras | ScrTime _ ras _ =>
+      (forall v, In v ras -> lo <= v < hi) ->
+      exists vals, col (fst (scramble m t s)) t F_RA = Some vals /\ length vals = length ras /\
+                   forall v, In v vals -> lo <= v < hi
+  | _ => True
+  end.
+Proof. exact time_ra_in_range. Qed.
+Print Assumptions C07_time_ra_in_range.
+
 (* the run masks the seasonal scrambling method computes from the stored time column *)
 Theorem C07_seasonal_masks : forall runs times,
   seasonal_masks runs times =
@@ -148,13 +164,13 @@ Theorem C07_init_on_dataset_array_refuted :
 Proof. exact init_on_dataset_array_alters. Qed.
 Print Assumptions C07_init_on_dataset_array_refuted.
 
-(* non-vacuity: a two-dataset world, a 24-step history using every operation, every
+(* non-vacuity: a two-dataset world, a 25-step history using every operation, every
    scrambling method, selection, sort, aliasing data fields, redraw; all steps succeed, and
    the generated arrays really differ from exp *)
 Example C07_nonvacuous :
   Forall (fun o => o = None) (w_cache ex_w0) /\ Forall (fun o => o = None) (w_ev ex_w0) /\
   Forall (fun o => o = None) (w_sig ex_w0) /\ Forall (fun o => o = None) (w_tdm ex_w0) /\
-  snd (run ex_ops ex_w0) = repeat (Ok tt) 24 /\
+  snd (run ex_ops ex_w0) = repeat (Ok tt) 25 /\
   length (sb (w_store ex_w0)) = 30%nat /\ length (st (w_store ex_w0)) = 4%nat /\
   w_exp ex_w0 = [0%nat; 1%nat] /\ w_mc ex_w0 = [2%nat; 3%nat] /\
   view (w_store (fst (run ex_ops ex_w0))) 0%nat = view (w_store ex_w0) 0%nat /\
